@@ -419,6 +419,7 @@ MUTANTS = [
 ]
 MUTANTS = [m for m in MUTANTS if m.name != 'state-after-notify']
 TWINS = [
+    M('closed-failed-merged', FS, "        elif self.state == 'CLOSED':\n            if self.circuit:\n                self.circuit.streams.remove(self)\n            self.circuit = None\n            self.maybe_call_closing_deferred()\n            flags = self._create_flags(kw)\n            self._notify('stream_closed', self, **flags)\n\n        elif self.state == 'FAILED':\n            if self.circuit:\n                self.circuit.streams.remove(self)\n            self.circuit = None\n            self.maybe_call_closing_deferred()\n            # build lower-case version of all flags\n            flags = self._create_flags(kw)\n            self._notify('stream_failed', self, **flags)", "        elif self.state in ('CLOSED', 'FAILED'):\n            if self.circuit:\n                self.circuit.streams.remove(self)\n            self.circuit = None\n            self.maybe_call_closing_deferred()\n            flags = self._create_flags(kw)\n            if self.state == 'CLOSED':\n                self._notify('stream_closed', self, **flags)\n            else:\n                self._notify('stream_failed', self, **flags)"),
     M('closing-is-not-none', FS, "        if self._closing_deferred:\n            self._closing_deferred.callback(self)", "        if self._closing_deferred is not None:\n            self._closing_deferred.callback(self)"),
     M('named-lambda', FC, "        def close_command_is_queued(*args):\n            return self._closing_deferred\n        d = self._torstate", "        def queued(*args):\n            return self._closing_deferred\n        close_command_is_queued = queued\n        d = self._torstate"),
 ]
